@@ -275,14 +275,16 @@ Occupant(s, r, d, n) == EntryAt(s, r, d, n)
 \* restore the entries ls[idx[k]+1] left to right; the first refused one stops the run
 RECURSIVE RestoreSeq(_, _, _, _, _, _)
 RestoreSeq(c, s, ls, idx, ow, done) ==
-  IF idx = << >> THEN [st |-> s, refused |-> FALSE, undef |-> FALSE]
+  IF idx = << >> THEN [st |-> s, refused |-> FALSE, undef |-> FALSE, sundef |-> FALSE]
   ELSE LET e == ls[Head(idx) + 1] IN
        IF e \in done THEN RestoreSeq(c, s, ls, Tail(idx), ow, done)    \* duplicate index: restored once
-       ELSE IF e.kind = "stray" THEN [st |-> s, refused |-> TRUE, undef |-> TRUE]  \* no payload to move: error, outcome of the info file unconstrained
+       \* no payload to move: an error; whether the info file stays is open (sundef), everything else is as it was - in
+       \* particular whatever lives at the original location, --overwrite or not (there is nothing to replace it with)
+       ELSE IF e.kind = "stray" THEN [st |-> s, refused |-> TRUE, undef |-> FALSE, sundef |-> TRUE]
        ELSE LET occ == Occupant(s, e.r, e.d, e.n) IN
-            IF occ # {} /\ ~ow THEN [st |-> s, refused |-> TRUE, undef |-> FALSE]
+            IF occ # {} /\ ~ow THEN [st |-> s, refused |-> TRUE, undef |-> FALSE, sundef |-> FALSE]
             ELSE IF occ # {} /\ \E x \in occ : c.kind[x.o] = "dir"
-                 THEN [st |-> s, refused |-> TRUE, undef |-> TRUE]     \* overwrite onto a directory: property silent
+                 THEN [st |-> s, refused |-> TRUE, undef |-> TRUE, sundef |-> FALSE]     \* overwrite onto a directory: property silent
             ELSE LET it == CHOOSE x \in s.items : x.t = e.t /\ x.o = e.o
                      s2 == [s EXCEPT !.live   = (@ \ occ) \cup {[r |-> e.r, d |-> e.d, n |-> e.n, o |-> e.o]},
                                      !.purged = @ \cup {x.o : x \in occ},
@@ -295,17 +297,17 @@ HasDup(idx) == \E i, j \in 1 .. Len(idx) : i # j /\ idx[i] = idx[j]
 \* all results of trash-restore for a given listing
 RestoreApply(c, s, ls, reply, ow) ==
   LET lsout == [i \in 1 .. Len(ls) |-> [date |-> ls[i].date, r |-> ls[i].r, d |-> ls[i].d, n |-> ls[i].n]] IN
-  IF Len(ls) = 0 THEN [st |-> s, undef |-> FALSE, out |-> [cmd |-> "restore", exit |-> "ok", listing |-> lsout]]
-  ELSE CASE reply.k = "eof"     -> [st |-> s, undef |-> FALSE, out |-> [cmd |-> "restore", exit |-> "fail", listing |-> lsout]]
-         [] reply.k = "empty"   -> [st |-> s, undef |-> FALSE, out |-> [cmd |-> "restore", exit |-> "ok", listing |-> lsout]]
-         [] reply.k = "invalid" -> [st |-> s, undef |-> FALSE, out |-> [cmd |-> "restore", exit |-> "fail", listing |-> lsout]]
+  IF Len(ls) = 0 THEN [st |-> s, undef |-> FALSE, sundef |-> FALSE, out |-> [cmd |-> "restore", exit |-> "ok", listing |-> lsout]]
+  ELSE CASE reply.k = "eof"     -> [st |-> s, undef |-> FALSE, sundef |-> FALSE, out |-> [cmd |-> "restore", exit |-> "fail", listing |-> lsout]]
+         [] reply.k = "empty"   -> [st |-> s, undef |-> FALSE, sundef |-> FALSE, out |-> [cmd |-> "restore", exit |-> "ok", listing |-> lsout]]
+         [] reply.k = "invalid" -> [st |-> s, undef |-> FALSE, sundef |-> FALSE, out |-> [cmd |-> "restore", exit |-> "fail", listing |-> lsout]]
          [] OTHER ->
               IF \E i \in 1 .. Len(reply.idx) : reply.idx[i] >= Len(ls)
-              THEN [st |-> s, undef |-> FALSE, out |-> [cmd |-> "restore", exit |-> "fail", listing |-> lsout]]
+              THEN [st |-> s, undef |-> FALSE, sundef |-> FALSE, out |-> [cmd |-> "restore", exit |-> "fail", listing |-> lsout]]
               ELSE LET r == RestoreSeq(c, s, ls, reply.idx, ow, {}) IN
-                   [st |-> r.st, undef |-> r.undef,
+                   [st |-> r.st, undef |-> r.undef, sundef |-> r.sundef,
                     out |-> [cmd |-> "restore",
-                             exit |-> IF r.refused THEN "fail" ELSE IF HasDup(reply.idx) THEN "any" ELSE "ok",
+                             exit |-> IF r.sundef THEN "any" ELSE IF r.refused THEN "fail" ELSE IF HasDup(reply.idx) THEN "any" ELSE "ok",
                              listing |-> lsout]]
 
 \* listings of bounded length over the offerable entries (for generation)
@@ -319,7 +321,7 @@ Restore(f, td, sort, reply, ow) ==
        \* the label says so and the post-state of such a step is not constrained
        /\ SetSt(r.st)
        /\ out' = [cmd |-> "restore", from |-> f, td |-> td, sort |-> sort, reply |-> reply, ow |-> ow,
-                  exit |-> IF r.undef THEN "any" ELSE r.out.exit, listing |-> r.out.listing, undef |-> r.undef]
+                  exit |-> IF r.undef THEN "any" ELSE r.out.exit, listing |-> r.out.listing, undef |-> r.undef, sundef |-> r.sundef]
     /\ UNCHANGED cfg
 
 -----------------------------------------------------------------------------
